@@ -18,7 +18,11 @@ CONSTANTS StackSize, FrameSize
 
 Kinds == {"div0", "mod0", "shiftneg", "index", "slice", "notcallable", "nargs", "gopanic", "gopanic-nil", "throw",
           "framelimit", "stacklimit"}
-Ctxs  == {"plain", "try-catch", "try-finally", "catch-rethrow", "callback", "callback-try"}
+Ctxs  == {"plain", "try-catch", "try-finally", "catch-rethrow", "callback", "callback-try",
+          \* the failure strikes on a child VM (pooled or not) that has its own handler, or on a child VM the
+          \* host starts after Run returned: a child VM recovers exactly like the VM it was made for
+          "try-in-callback", "try-in-callback-unpooled", "host-invoke", "host-invoke-unpooled"}
+NoHandlerCtxs == {"plain", "host-invoke", "host-invoke-unpooled"}
 Depths == {"shallow", "nearframes", "nearstack"}
 
 VARIABLES sp, fi, handlers, err, done, kind, ctxt, touched
@@ -28,7 +32,7 @@ Init == /\ kind \in Kinds /\ ctxt \in Ctxs
         /\ sp \in 0..StackSize /\ fi \in 1..FrameSize
         \* handler frames: set of frame indexes <= fi holding an open try (with the sp they recorded)
         /\ handlers \in {{}} \cup {{[f |-> f, s |-> s]} : f \in 1..fi, s \in 0..sp}
-        /\ (ctxt = "plain" <=> handlers = {})
+        /\ (ctxt \in NoHandlerCtxs <=> handlers = {})
         /\ err = "none" /\ done = FALSE /\ touched = {}
 
 \* the failing instruction itself: limits are detected by the VM (error value), the others are Go panics
@@ -60,7 +64,7 @@ Matrix == {[kind |-> k, ctx |-> x, depth |-> d,
             \* near a limit the VM may report the limit instead of the failure: only totality is required there
             \* (the same holds for the two limit kinds themselves: the property allows delivery to a handler or an error from Run)
             expect |-> IF d # "shallow" \/ k \in {"framelimit", "stacklimit"} THEN "value-or-error"
-                       ELSE IF x \in {"try-catch", "try-finally", "callback-try"} THEN (IF x = "try-finally" THEN "error-after-finally" ELSE "value")
+                       ELSE IF x \in {"try-catch", "try-finally", "callback-try", "try-in-callback", "try-in-callback-unpooled"} THEN (IF x = "try-finally" THEN "error-after-finally" ELSE "value")
                        ELSE "error"] : k \in Kinds, x \in Ctxs, d \in Depths}
 ASSUME CSVWrite("%1$s", <<ToJson(Matrix)>>, IOEnv.OUT)
 =============================================================================
